@@ -327,17 +327,16 @@ pub mod routes {
     }
 
     // cli run.rs: collect_required_modules / load_required_modules / try_load_std_module
-    fn collect_required_modules(f: &Function, out: &mut HashSet<String>) {
+    // (since e86bdef: each module once, in the order the bytecode records them - own global layout first, then nested functions)
+    fn collect_required_modules(f: &Function, out: &mut Vec<String>, seen: &mut HashSet<String>) {
         for name in f.global_layout.names() {
-            if let Some(m) = name.split("::").next() && name.contains("::") { out.insert(m.to_string()); }
+            if let Some(m) = name.split("::").next() && name.contains("::") && seen.insert(m.to_string()) { out.push(m.to_string()); }
         }
-        for n in &f.nested_functions { collect_required_modules(n, out); }
+        for n in &f.nested_functions { collect_required_modules(n, out, seen); }
     }
-    fn load_required_modules(vm: &mut VM, entry: &Path, source: std::sync::Arc<Source>, modules: &HashSet<String>, manifest: Option<&Manifest>) -> Result<(), String> {
+    fn load_required_modules(vm: &mut VM, entry: &Path, source: std::sync::Arc<Source>, modules: &[String], manifest: Option<&Manifest>) -> Result<(), String> {
         let mut loader = ModuleLoader::with_manifest(entry, source.clone(), manifest.cloned());
-        let mut names: Vec<&String> = modules.iter().collect();
-        names.sort();
-        for m in names {
+        for m in modules {
             let std_needs = NeedsStmt { path: vec!["std".to_string(), m.clone()], kind: ImportKind::Module { alias: None }, span: Span::dummy() };
             if loader.load_module(&std_needs, vm).is_ok() { continue; }
             let needs = NeedsStmt { path: vec![m.clone()], kind: ImportKind::Module { alias: None }, span: Span::dummy() };
@@ -358,8 +357,8 @@ pub mod routes {
         let src = Source::new(path.display().to_string(), "");
         let mut vm = VM::with_config_and_args(src.clone(), VmConfig::default(), Vec::new()).map_err(|e| format!("vm|{}", e))?;
         vm.set_script_path(path.display().to_string());
-        let mut mods = HashSet::new();
-        collect_required_modules(&function, &mut mods);
+        let (mut mods, mut seen) = (Vec::new(), HashSet::new());
+        collect_required_modules(&function, &mut mods, &mut seen);
         load_required_modules(&mut vm, path, src, &mods, manifest.as_ref())?;
         Ok(exec(&mut vm, function, heap))
     }
